@@ -14,6 +14,8 @@ def run(ctx):
                       "excludes Running, or (Finished) after kill().await and wait().await both succeeded with wait()'s status; "
                       "CommandState::wait yields Ok(true) exactly when it stored Finished")
     ctx.rule("R04.4", "previous_run only ever receives reset()'s return value, and reset() builds only Pending/Finished")
+    ctx.rule("R04.6", "one job per Id in the library: the action worker's job map loses an entry only when that job is dead (or on a graceful quit), so "
+                      "get_or_create_job(id) cannot create a second job - and a second process - next to a live one (shared with C05 R05.8)")
     ctx.rule("R04.5", "every path of Command::to_spawnable applies KillOnDrop; CommandState is not Clone outside tests")
     for fn in (jobrules.single_creator, jobrules.spawn_guard, jobrules.wait_summary, jobrules.kill_on_drop):
         try:
@@ -24,5 +26,10 @@ def run(ctx):
         B = jobtask.Bodies(ctx, "R04.3")
         jobrules.typestate(ctx, B)
         jobrules.previous_run_safe(ctx, B)
+    except Skip:
+        pass
+    try:
+        from . import c05 as _c05
+        _c05.job_retention(ctx, "R04.6")
     except Skip:
         pass
